@@ -155,9 +155,9 @@ Print Assumptions no_value_invented_or_duplicated.
    fst dpair = None: no input axis of the slice is matched to the dropped output (otherwise
    drop_io_dim removes a data axis too and the Image constructor refuses the element). *)
 Theorem image_list_item_tracks :
-  forall img in_ax out_ax dropout k dpair r,
+  forall img in_ax out_ax dropout k dpair tinyz r,
   wf_image img -> fst dpair = None ->
-  image_list_item img in_ax out_ax dropout k dpair = IOk r ->
+  image_list_item img in_ax out_ax dropout k dpair tinyz = IOk r ->
   wf_image r /\ exists phi, tracks_sub r img phi (fun s => s).
 Proof. exact image_list_item_tracks_lemma. Qed.
 Print Assumptions image_list_item_tracks.
@@ -209,7 +209,7 @@ Proof. reflexivity. Qed.
 
 (* list over k of the sheared demo image, dropping t: element 2 keeps x, y, z of ITS slice *)
 Example demo_image_list_element :
-  exists r, image_list_item demo (Some 2) (Some 3) true 2 (None, Some 3) = IOk r /\
+  exists r, image_list_item demo (Some 2) (Some 3) true 2 (None, Some 3) 0%Z = IOk r /\
             ishape r = [2; 3] /\ out_names r = ["x"; "y"; "z"] /\
             world r [1; 2] = Ok [1; 5; 7]%Z /\ world demo [1; 2; 2] = Ok [1; 5; 7; 7]%Z /\
             value r [1; 2] = value demo [1; 2; 2].
